@@ -1631,86 +1631,58 @@ Proof.
 Qed.
 
 (* =============================================================================================
-   Re-running the layout on a tree that was laid out before (structurally unchanged) *)
+   Re-running the layout: since the reset of `shift` (F10) a call of reingold_tilford does not
+   depend on earlier calls; what it computes is the fresh layout of the shape the tree has *)
 
-Definition dmono (d : dtree) : Prop := alld (fun d => mono (map dsh (dkids d))) d.
+Lemma dsh_reset d : dsh (reset_d d) = 0.
+Proof. destruct d; reflexivity. Qed.
 
-Lemma alld_impl (P Q : dtree -> Prop) : (forall d, P d -> Q d) -> forall d, alld P d -> alld Q d.
+Lemma fpd_reset ss sts : forall d, fpd ss sts (reset_d d) = fp ss sts (tree_of_d d).
 Proof.
-  intros HPQ. induction d as [x m s ks IH] using dtree_ind'. rewrite !alld_unfold. cbn [dkids].
-  intros [H1 H2]. split; [apply HPQ, H1|]. rewrite Forall_forall in *. intros k Hk. apply IH; [exact Hk|apply H2, Hk].
+  induction d as [x m s ks IH] using dtree_ind'. cbn [reset_d fpd tree_of_d fp]. rewrite !map_map. f_equal.
+  - apply map_ext_in. intros k Hk. rewrite Forall_forall in IH. apply IH, Hk.
+  - apply map_ext. intros k. apply dsh_reset.
 Qed.
 
-Lemma dwf_dmono ss d : dwf ss d -> dmono d.
-Proof. apply alld_impl. intros e [_ [_ H]]. exact H. Qed.
-
-Lemma fpd_inv ss sts d : dmono d ->
-  Forall (dwf ss) (fpd ss sts d) /\ chain_x ss (fpd ss sts d) /\ mono (map dsh (fpd ss sts d)).
+Lemma dheight_tree : forall d, dheight d = height (tree_of_d d).
 Proof.
-  induction d as [x m s ks IH] using dtree_ind'. intros HM. unfold dmono in HM.
-  rewrite alld_unfold in HM. cbn [dkids] in HM. destruct HM as [HM0 HMk]. cbn [fpd].
-  apply place_inv.
-  - rewrite !map_length. reflexivity.
-  - apply Forall_map. rewrite Forall_forall in *. intros k Hk. apply (IH k Hk). apply (HMk k Hk).
-  - constructor.
-  - exact I.
-  - cbn [map app]. exact HM0.
+  induction d as [x m s ks IH] using dtree_ind'. cbn [dheight tree_of_d height]. f_equal.
+  induction ks as [|k ks IHk]; [reflexivity|]. inversion IH as [|? ? Hk Hks]; subst.
+  cbn [map fold_right]. rewrite Hk, IHk by exact Hks. reflexivity.
 Qed.
 
-Lemma first_pass_d_wf ss sts d : dmono d -> dwf ss (first_pass_d ss sts d).
+(* one call = the fresh layout of the current shape, whatever annotations the nodes carry *)
+Lemma layout_fresh p d : snd (layout p d) = reingold_tilford p (tree_of_d d).
 Proof.
-  intros HM. unfold first_pass_d. destruct (fpd_inv ss sts d HM) as [H1 [H2 H3]].
-  unfold dwf. rewrite alld_unfold. cbn [dkids]. split; [|exact H1].
-  unfold dlocal. cbn [dkids dx dmod]. split; [|split; assumption].
-  intros _. unfold midpoint. qn. lra.
+  unfold layout, reingold_tilford, first_pass, first_pass_d. cbn [snd].
+  rewrite fpd_reset, dheight_tree. reflexivity.
 Qed.
 
-Lemma dmono_zero t : dmono (zero_d t).
+(* the model never looks at tags, names or attributes *)
+Lemma fp_strip ss sts : forall t, fp ss sts (tree_of_d (zero_d t)) = fp ss sts t.
 Proof.
-  induction t as [g n a ks IH] using tree_ind'. unfold dmono. rewrite alld_unfold. cbn [zero_d dkids]. split.
-  - rewrite map_map. clear IH. induction ks as [|k ks IHk]; [exact I|]. destruct ks as [|k' ks]; [exact I|].
-    cbn [map mono] in *. split; [destruct k, k'; cbn; lra|exact IHk].
-  - apply Forall_map. exact IH.
+  induction t as [g n a ks IH] using tree_ind'. cbn [zero_d tree_of_d fp]. rewrite !map_map. f_equal.
+  apply map_ext_in. intros k Hk. rewrite Forall_forall in IH. apply IH, Hk.
 Qed.
 
-Lemma dmono_reruns : forall ps d, dmono d -> dmono (reruns ps d).
+Lemma height_strip : forall t, height (tree_of_d (zero_d t)) = height t.
 Proof.
-  induction ps as [|p ps IH]; intros d H; [exact H|]. cbn [reruns]. apply IH. cbn [layout fst].
-  eapply dwf_dmono. apply first_pass_d_wf. exact H.
+  induction t as [g n a ks IH] using tree_ind'. cbn [zero_d tree_of_d height]. f_equal. rewrite map_map.
+  induction ks as [|k ks IHk]; [reflexivity|]. inversion IH as [|? ? Hk Hks]; subst.
+  cbn [map fold_right]. rewrite Hk, IHk by exact Hks. reflexivity.
 Qed.
 
-Lemma layout_local p d : dmono d ->
-  Forall (fun n => Mid n /\ (0 <= p_ss p -> Sib (p_ss p) n)) (cpre (snd (layout p d))).
-Proof. intros H. cbn [layout snd]. apply third_local, second_local, first_pass_d_wf, H. Qed.
+Lemma rt_strip p t : reingold_tilford p (tree_of_d (zero_d t)) = reingold_tilford p t.
+Proof. unfold reingold_tilford, first_pass. rewrite fp_strip, height_strip. reflexivity. Qed.
 
-(* shapes *)
-Fixpoint sk_c (c : ctree) : sk := match c with C _ _ ks => Sk (map sk_c ks) end.
-
-Lemma sk_c_second ls xo yo maxd : forall d depth cum, sk_c (second ls xo yo maxd depth cum d) = sk_d d.
+(* a call leaves the structure alone *)
+Lemma tree_of_reset : forall d, tree_of_d (reset_d d) = tree_of_d d.
 Proof.
-  induction d as [x m s ks IH] using dtree_ind'. intros depth cum. cbn [second sk_c sk_d]. f_equal.
-  rewrite map_map. apply map_ext_in. intros k Hk. rewrite Forall_forall in IH. apply IH, Hk.
+  induction d as [x m s ks IH] using dtree_ind'. cbn [reset_d tree_of_d]. f_equal. rewrite map_map.
+  apply map_ext_in. intros k Hk. rewrite Forall_forall in IH. apply IH, Hk.
 Qed.
 
-Lemma sk_c_cshift a : forall c, sk_c (cshift a c) = sk_c c.
-Proof.
-  induction c as [x y ks IH] using ctree_ind'. cbn [cshift sk_c]. f_equal.
-  rewrite map_map. apply map_ext_in. intros k Hk. rewrite Forall_forall in IH. apply IH, Hk.
-Qed.
-
-Lemma sk_c_third c : sk_c (third c) = sk_c c.
-Proof. unfold third. destruct (Qeq_bool (adjust c) 0); [reflexivity|apply sk_c_cshift]. Qed.
-
-Lemma same_shape_sk : forall t c, sk_of t = sk_c c -> same_shape t c = true.
-Proof.
-  induction t as [g n a ks IH] using tree_ind'. intros [x y cs] E. cbn [sk_of sk_c] in E.
-  injection E as E. cbn [same_shape]. revert cs E.
-  induction ks as [|k ks IHk]; intros [|c cs] E; try discriminate; [reflexivity|].
-  inversion IH as [|? ? Hk Hks]; subst. cbn [map] in E. injection E as E1 E2.
-  rewrite (Hk c E1), (IHk Hks cs E2). reflexivity.
-Qed.
-
-Lemma sk_fpd ss sts : forall d, map sk_d (fpd ss sts d) = map sk_d (dkids d).
+Lemma tree_of_fpd ss sts : forall d, map tree_of_d (fpd ss sts d) = map tree_of_d (dkids d).
 Proof.
   induction d as [x m s ks IH] using dtree_ind'. cbn [dkids].
   assert (E : map dkids (fpd ss sts (D x m s ks)) = map (fpd ss sts) ks).
@@ -1718,75 +1690,34 @@ Proof.
   generalize dependent (fpd ss sts (D x m s ks)). intros L. revert L.
   induction ks as [|k ks IHk]; intros L E; destruct L as [|d L]; try discriminate; [reflexivity|].
   inversion IH as [|? ? Hk Hks]; subst. cbn [map] in *. injection E as E1 E2.
-  rewrite (IHk Hks L E2). f_equal. rewrite (sk_d_unfold d), E1, Hk. symmetry. apply sk_d_unfold.
+  rewrite (IHk Hks L E2). f_equal.
+  destruct d as [x' m' s' kids']. cbn [dkids] in E1. subst kids'.
+  destruct k as [x'' m'' s'' kids'']. cbn [tree_of_d dkids] in *. f_equal. exact Hk.
 Qed.
 
-Lemma sk_first_pass_d ss sts d : sk_d (first_pass_d ss sts d) = sk_d d.
-Proof. unfold first_pass_d. cbn [sk_d]. rewrite sk_fpd. symmetry. apply sk_d_unfold. Qed.
-
-Lemma sk_reruns : forall ps d, sk_d (reruns ps d) = sk_d d.
+Lemma tree_of_layout p d : tree_of_d (fst (layout p d)) = tree_of_d d.
 Proof.
-  induction ps as [|p ps IH]; intros d; [reflexivity|]. cbn [reruns]. rewrite IH. cbn [layout fst].
-  apply sk_first_pass_d.
+  unfold layout, first_pass_d. cbn [fst tree_of_d]. rewrite tree_of_fpd.
+  rewrite <- (tree_of_reset d). destruct (reset_d d); reflexivity.
 Qed.
 
-Lemma sk_zero t : sk_d (zero_d t) = sk_of t.
+Lemma tree_of_reruns : forall ps d, tree_of_d (reruns ps d) = tree_of_d d.
 Proof.
-  induction t as [g n a ks IH] using tree_ind'. cbn [zero_d sk_d sk_of]. f_equal.
-  rewrite map_map. apply map_ext_in. intros k Hk. rewrite Forall_forall in IH. apply IH, Hk.
+  induction ps as [|p ps IH]; intros d; [reflexivity|]. cbn [reruns]. rewrite IH. apply tree_of_layout.
 Qed.
 
-Lemma same_shape_again ps p t : same_shape t (rt_again ps p t) = true.
+(* laying the same (structurally unchanged) tree out again gives the fresh layout *)
+Lemma rt_again_eq ps p t : rt_again ps p t = reingold_tilford p t.
+Proof. unfold rt_again. rewrite layout_fresh, tree_of_reruns. apply rt_strip. Qed.
+
+Lemma run_steps_app : forall s1 st s2, run_steps st (s1 ++ s2) = run_steps (run_steps st s1) s2.
 Proof.
-  apply same_shape_sk. unfold rt_again. cbn [layout snd].
-  rewrite sk_c_third, sk_c_second, sk_first_pass_d, sk_reruns, sk_zero. reflexivity.
+  induction s1 as [|[e p] s1 IH]; intros st s2; [reflexivity|]. cbn [app run_steps]. apply IH.
 Qed.
 
-(* the four clauses after any number of earlier layouts with arbitrary parameters *)
-Lemma again_but_cousins eps ps p t : 0 <= eps -> params_pos p ->
-  prop_C19_but_cousins eps p t (rt_again ps p t) = true.
-Proof.
-  intros He [Hss [Hsts Hls]].
-  assert (HM : dmono (reruns ps (zero_d t))) by apply dmono_reruns, dmono_zero.
-  pose proof (layout_local p _ HM) as HL. fold (rt_again ps p t) in HL.
-  unfold prop_C19_but_cousins. rewrite same_shape_again. cbn [andb].
-  assert (H1 : levels_ok eps (p_ls p) (rt_again ps p t) = true).
-  { apply levels_ok_of_P; [exact He|exact Hls|]. unfold rt_again. cbn [layout snd].
-    apply levelsP_third, levelsP_second. }
-  assert (H2 : midpoint_ok eps (rt_again ps p t) = true).
-  { unfold midpoint_ok. apply forallb_forall. intros n Hn. rewrite Forall_forall in HL.
-    destruct (HL n Hn) as [HMid _]. unfold Mid in HMid. destruct (ckids n) as [|f l]; [reflexivity|].
-    apply eq_eps_true; [exact He|exact HMid]. }
-  assert (H3 : siblings_ok eps (p_ss p) (rt_again ps p t) = true).
-  { unfold siblings_ok. apply forallb_forall. intros n Hn. rewrite Forall_forall in HL.
-    destruct (HL n Hn) as [_ HS]. specialize (HS (Qlt_le_weak _ _ Hss)). unfold Sib in HS.
-    eapply ordpairs_true; [|exact HS]. intros a b Hab. cbn beta in Hab. apply leq_eps_true; assumption. }
-  assert (H4 : nonneg_ok eps (rt_again ps p t) = true).
-  { unfold nonneg_ok. apply forallb_forall. intros n Hn.
-    assert (HN : Forall (fun n => 0 <= cx n) (cpre (rt_again ps p t))).
-    { unfold rt_again. cbn [layout snd]. apply third_nonneg.
-      eapply Forall_impl; [|apply second_local, first_pass_d_wf, HM]. intros a [H _]. exact H. }
-    rewrite Forall_forall in HN. apply leq_eps_true; [exact He|apply HN, Hn]. }
-  rewrite H1, H2, H3, H4. reflexivity.
-Qed.
-
-(* a first layout in the re-run model is the layout of Algo/Plot.v `reingold_tilford` *)
-Lemma fpd_zero ss sts t : fpd ss sts (zero_d t) = fp ss sts t.
-Proof.
-  induction t as [g n a ks IH] using tree_ind'. cbn [zero_d fpd fp]. rewrite !map_map. f_equal.
-  - apply map_ext_in. intros k Hk. rewrite Forall_forall in IH. apply IH, Hk.
-  - apply map_ext. intros k. destruct k; reflexivity.
-Qed.
-
-Lemma dheight_zero t : dheight (zero_d t) = height t.
-Proof.
-  induction t as [g n a ks IH] using tree_ind'. cbn [zero_d dheight height]. f_equal.
-  induction ks as [|k ks IHk]; [reflexivity|]. inversion IH as [|? ? Hk Hks]; subst.
-  cbn [map fold_right]. rewrite Hk, IHk by exact Hks. reflexivity.
-Qed.
-
-Lemma rt_again_nil p t : rt_again [] p t = reingold_tilford p t.
-Proof.
-  unfold rt_again, reingold_tilford, first_pass. cbn [reruns layout snd]. unfold first_pass_d.
-  rewrite fpd_zero, dheight_zero. reflexivity.
-Qed.
+(* after any history of layouts and structural changes, the coordinates of the last call are the
+   fresh layout of the tree as it is then *)
+Lemma relayout_is_fresh st steps e p :
+  snd (run_steps st (steps ++ [(e, p)]))
+  = reingold_tilford p (tree_of_d (apply_edit e (fst (run_steps st steps)))).
+Proof. rewrite run_steps_app. cbn [run_steps]. apply layout_fresh. Qed.
